@@ -5,5 +5,7 @@ from ..contracts import normal as N
 
 def run(tier):
     rel, q, c = N.DV_ITEM
+    rel2, q2, c2 = N.BP_ITEM      # krondot divides by exp(logZ): the logZ=True answer of belief_propagation is log Z (under L-cal)
     return deductive.verify_module('gmquery', nproc=1) + normal_ded.reports(('C02',)) + \
-        [deductive.verify_function(rel, q, c, hooks=N.DataVectorHooks(), module_env={})]
+        [deductive.verify_function(rel, q, c, hooks=N.DataVectorHooks(), module_env={}),
+         deductive.verify_function(rel2, q2, c2, hooks=N.BPHooks(), module_env={'Z_calibrated': N.E.Num(N.z3.Real('Z_calibrated'))})]
